@@ -281,7 +281,17 @@ def plain_simulation(system, index, params, seed):
             finally:
                 os.remove(path)
         loaded.h_base = system.h_base
-        system.h_saved_ok = (plain_digest(loaded) == before and plain_digest(system) == before
+        if how != 'none' and params.get('continue_copy'):
+            # the saved copy is continued on its own (through its Environment: only the newest System may simulate())
+            # before the original is; the process-wide random stream and id counter are put back afterwards, so both
+            # continuations see the same draws and must both equal the reference
+            from simprocesd.model.factory_floor.asset import Asset as _A
+            st, idc = random.getstate(), _A._id_counter
+            loaded.env.run(params['horizon'] - cut)
+            system.h_copy_digest = plain_digest(loaded)
+            random.setstate(st)
+            _A._id_counter = idc
+        system.h_saved_ok = ((plain_digest(loaded) == before or params.get('continue_copy')) and plain_digest(system) == before
                              and sorted(getattr(a, 'name', '') or '' for a in loaded.find_assets())
                              == sorted(getattr(a, 'name', '') or '' for a in system.find_assets()))
         system.simulate(params['horizon'] - cut, print_summary=False)
@@ -445,8 +455,18 @@ def run(sh):
                 psplit = System.simulate_multiple_times(plain_simulation, nsim, 0,
                                                         dict(params, persist_at=cut, persist_how='none'), seed)
                 for how in ('pickle', 'deepcopy', 'save_object'):
-                    pp = dict(params, persist_at=cut, persist_how=how)
+                    pp = dict(params, persist_at=cut, persist_how=how, continue_copy=rng.random() < 0.5)
                     psaved = System.simulate_multiple_times(plain_simulation, nsim, 0, pp, seed)
+                    if pp['continue_copy']:
+                        badc = [k for k in range(nsim) if psaved[k].h_copy_digest != psplit[k].h_digest]
+                        if badc:
+                            k = badc[0]
+                            sh.violation('saved_copy_differs', f'plain model saved with {how} at {cut}: the copy, continued on '
+                                         f'its own, differs from the original continued without saving: '
+                                         + first_diff(psplit[k].h_digest, psaved[k].h_copy_digest),
+                                         dict(pcase, params=pp), engine='parallel')
+                            break
+                        sh.count('saved_copies_continued', nsim)
                     badk = [k for k in range(nsim) if psaved[k].h_digest != psplit[k].h_digest
                             or not getattr(psaved[k], 'h_saved_ok', False)]
                     if badk:
